@@ -156,10 +156,31 @@ def visible(stream):
 
 
 def html_text(doc):
-    m = _PRE.search(doc)
-    if not m:
-        return None
-    return html.unescape(_TAG.sub("", m.group(1)))
+    """Text content of the <pre> element, by a real HTML parser (attribute values such as a link URL may contain
+    '>' or '<' inside quotes, which a tag-stripping regex would mis-handle)."""
+    from html.parser import HTMLParser
+
+    class P(HTMLParser):
+        def __init__(self):
+            super().__init__(convert_charrefs=True)
+            self.depth = 0
+            self.out = []
+
+        def handle_starttag(self, tag, attrs):
+            if tag == "pre":
+                self.depth += 1
+
+        def handle_endtag(self, tag):
+            if tag == "pre":
+                self.depth -= 1
+
+        def handle_data(self, data):
+            if self.depth > 0:
+                self.out.append(data)
+    p = P()
+    p.feed(doc)
+    p.close()
+    return "".join(p.out)
 
 
 def op_json(op):
